@@ -1078,7 +1078,7 @@ static void run_input(ctx_t *c, const char *b, int n, int value_idx)
 enum { CT_SEED, CT_DEV1, CT_DEV2, CT_SHORT, CT_DEEP };
 
 /* deeply nested documents: shape x depth, built at run time */
-#define NDEEP_SHAPE 5
+#define NDEEP_SHAPE 6
 static const int deep_n[3] = { 900, 1100, 40000 };
 
 typedef struct kase {
@@ -1354,9 +1354,12 @@ static void run(int tier, long idx, vf_result *r)
 	    static const char *const shn[NDEEP_SHAPE] = {
 		"flow sequences", "flow mappings", "block sequences",
 		"flow sequences as calibration-file properties",
-		"levels named by dotted map keys of 100 components" };
+		"levels named by dotted map keys of 100 components",
+		"levels named by one dotted map key" };
 	    static char what[120];
 	    int n = deep_n[k->lo], sh = k->kind;
+	    if (sh == 5)
+		n *= 10;	/* freeing such a tree needs the deeper stack */
 	    size_t cap = (size_t)n * 8 + 1024, len = 0;
 	    char *buf = malloc(cap);
 	    if (buf == NULL)
@@ -1374,6 +1377,16 @@ static void run(int tier, long idx, vf_result *r)
 		}
 		buf[len++] = '1';
 		memset(buf + len, '}', (size_t)n); len += (size_t)n;
+	    } else if (sh == 5) {
+		/* one key a.a. ... .a of n components */
+		buf[len++] = '?'; buf[len++] = ' ';
+		for (int j = 0; j < n; ++j) {
+		    buf[len++] = 'a';
+		    if (j + 1 < n)
+			buf[len++] = '.';
+		}
+		buf[len++] = '\n'; buf[len++] = ':'; buf[len++] = ' ';
+		buf[len++] = '1';
 	    } else if (sh == 4) {
 		/* n / 100 flow mappings whose keys are a.a. ... .a */
 		int d = n / 100;
